@@ -255,3 +255,66 @@ def lazy(module: str, rule: str, why: str):
     run.__name__ = f"{rule}__from_{module}"
     run.__doc__ = f"{why} (rule {rule} of {module}, imported lazily)"
     return run
+
+
+VALUE_TYPES = {"str", "int", "float", "bool", "bytes", "None", "TaskId", "HostId", "DatasetId", "WorkerId", "Type", "type"}
+
+
+def memo_by_identity(ctx, rid: str, modules: tuple, why: str):
+    """Functions of `modules` must not memoise on the identity of mutable arguments: (a) a caching decorator (functools.lru_cache / cache)
+    on a function one of whose parameters is not declared as a plain value type — the cache then answers for *that object as it was at
+    the first call* (a closure whose captured state changed, a callable re-created at a recycled address, a dict that was updated); (b) a
+    write into a module-level container from inside a function (a hand-made memo).  `why` says what goes wrong for this property."""
+    import ast as _ast
+    from ..calls import MUTATORS
+    repo = ctx.repo
+    n = bad = 0
+    for mn in modules:
+        m = repo.modules.get(mn)
+        if m is None:
+            continue
+        glob = set()
+        for st_ in m.tree.body:
+            tg = st_.targets if isinstance(st_, _ast.Assign) else [st_.target] if isinstance(st_, _ast.AnnAssign) else []
+            for t in tg:
+                if isinstance(t, _ast.Name) and isinstance(getattr(st_, "value", None), (_ast.Dict, _ast.List, _ast.Set, _ast.Call, _ast.DictComp)):
+                    glob.add(t.id)
+        for fi in repo.all_funcs():
+            if fi.module is not m or isinstance(fi.node, _ast.Lambda):
+                continue
+            n += 1
+            hit = None
+            for d in fi.node.decorator_list:
+                txt = _ast.unparse(d.func if isinstance(d, _ast.Call) else d)
+                if txt.rsplit(".", 1)[-1] in ("lru_cache", "cache"):
+                    a = fi.node.args
+                    loose = []
+                    for p in a.posonlyargs + a.args + a.kwonlyargs:
+                        if p.arg in ("self", "cls"):
+                            loose.append(p.arg)
+                            continue
+                        names = {x.id for x in _ast.walk(p.annotation) if isinstance(x, _ast.Name)} | {x.attr for x in _ast.walk(p.annotation) if isinstance(x, _ast.Attribute)} \
+                            | {str(x.value) for x in _ast.walk(p.annotation) if isinstance(x, _ast.Constant)} if p.annotation is not None else {"<unannotated>"}
+                        if not names <= VALUE_TYPES | {"Optional", "Union", "tuple", "frozenset", "Literal"}:
+                            loose.append(f"{p.arg}: {_ast.unparse(p.annotation) if p.annotation is not None else '<unannotated>'}")
+                    if loose or a.vararg or a.kwarg:
+                        hit = (d, f"is memoised with @{txt} although its argument(s) {loose or ['*args/**kwargs']} are arbitrary objects: the cache is keyed by object "
+                                  f"identity / hash and keeps answering with what that object was at the first call")
+            local = {a_.arg for a_ in _ast.walk(fi.node) if isinstance(a_, _ast.arg)} | {t.id for x in _ast.walk(fi.node) if isinstance(x, _ast.Assign) for t in x.targets if isinstance(t, _ast.Name)}
+            declared_global = {nm for x in _ast.walk(fi.node) if isinstance(x, _ast.Global) for nm in x.names}
+            for node in _ast.walk(fi.node):
+                if hit:
+                    break
+                if isinstance(node, _ast.Global):
+                    hit = (node, f"declares `global {', '.join(node.names)}`")
+                elif isinstance(node, _ast.Subscript) and isinstance(node.ctx, (_ast.Store, _ast.Del)) and isinstance(node.value, _ast.Name) and node.value.id in (glob - local) | declared_global:
+                    hit = (node, f"stores into the module-level container `{node.value.id}`")
+                elif isinstance(node, _ast.Call) and isinstance(node.func, _ast.Attribute) and isinstance(node.func.value, _ast.Name) \
+                        and node.func.value.id in (glob - local) | declared_global and node.func.attr in MUTATORS:
+                    hit = (node, f"mutates the module-level container `{node.func.value.id}` (.{node.func.attr})")
+            if hit:
+                bad += 1
+                ctx.violation(rid, fi.qual, loc(fi, hit[0]), "no memo across calls", f"{fi.qual} {hit[1]}: {why}")
+    ctx.floor(rid + ".functions", n, 5)
+    if not bad:
+        ctx.ok(rid, modules[0], f"{n} functions of {', '.join(modules)}: no caching decorator on object-typed arguments, no write into module-level containers")
